@@ -266,6 +266,20 @@ func apiRun(op string, a []string) []string {
 			r = append(r, sBool(c.Less()), sBool(c.LessOrEqual()), sBool(c.Equal()), sBool(c.GreaterOrEqual()), sBool(c.Greater()))
 		}
 		return r
+	case "api.CohortSame":
+		// a[0] operation, a[1] position of the varied operand, a[2] a[3] two encodings of one value, a[4:] the other
+		// arguments: the two results must agree in every component (Decimals by class, sign and numeric value)
+		pos, _ := strconv.Atoi(a[1])
+		mk := func(m string) []string {
+			r := append([]string{}, a[4:4+pos]...)
+			r = append(r, m)
+			return append(r, a[4+pos:]...)
+		}
+		r1, r2 := d128.VerifCall(a[0], mk(a[2])), d128.VerifCall(a[0], mk(a[3]))
+		if sameResults(r1, r2) {
+			return []string{"same"}
+		}
+		return []string{"differ:" + strings.Join(r1, ",") + "|" + strings.Join(r2, ",")}
 	case "api.PayloadString":
 		p, _ := strconv.ParseUint(a[0], 10, 64)
 		return []string{sBytes([]byte(d128.Payload(p).String()))}
@@ -276,4 +290,67 @@ func apiRun(op string, a []string) []string {
 		return r
 	}
 	return []string{"NOAPI"}
+}
+
+func isDecTok(s string) bool {
+	if len(s) != 32 {
+		return false
+	}
+	for _, c := range s {
+		if !(c >= '0' && c <= '9' || c >= 'a' && c <= 'f') {
+			return false
+		}
+	}
+	return true
+}
+
+// sameValueTok: two Decimal tokens denote the same class, sign and numeric value (NaNs: both NaN)
+func sameValueTok(s1, s2 string) bool {
+	var x, y dec
+	fmt.Sscanf(s1[:16], "%x", &x.hi)
+	fmt.Sscanf(s1[16:], "%x", &x.lo)
+	fmt.Sscanf(s2[:16], "%x", &y.hi)
+	fmt.Sscanf(s2[16:], "%x", &y.lo)
+	n1, c1, e1, sp1 := decode(x)
+	n2, c2, e2, sp2 := decode(y)
+	if sp1 != sp2 {
+		return false
+	}
+	if sp1 {
+		nan1, nan2 := x.hi&0x7c00_0000_0000_0000 == 0x7c00_0000_0000_0000, y.hi&0x7c00_0000_0000_0000 == 0x7c00_0000_0000_0000
+		if nan1 || nan2 {
+			return nan1 && nan2
+		}
+		return n1 == n2
+	}
+	if n1 != n2 {
+		return false
+	}
+	if c1.Sign() == 0 || c2.Sign() == 0 {
+		return c1.Sign() == c2.Sign()
+	}
+	a, b := new(big.Int).Set(c1), new(big.Int).Set(c2)
+	ten := big.NewInt(10)
+	if e1 > e2 {
+		a.Mul(a, new(big.Int).Exp(ten, big.NewInt(int64(e1-e2)), nil))
+	} else {
+		b.Mul(b, new(big.Int).Exp(ten, big.NewInt(int64(e2-e1)), nil))
+	}
+	return a.Cmp(b) == 0
+}
+
+func sameResults(r1, r2 []string) bool {
+	if len(r1) != len(r2) {
+		return false
+	}
+	for i := range r1 {
+		if isDecTok(r1[i]) && isDecTok(r2[i]) {
+			if !sameValueTok(r1[i], r2[i]) {
+				return false
+			}
+		} else if r1[i] != r2[i] {
+			return false
+		}
+	}
+	return true
 }
